@@ -27,7 +27,8 @@ CALL_OPS = [
     ('::saturating_sub', 'satsub'), ('::abs', 'abs'),
 ]
 IDENTITY_CALLS = ('<I as std::iter::IntoIterator>::into_iter', 'as std::convert::Into<U>>::into', 'std::convert::From<', '::deref', '::deref_mut', '::as_slice', '::as_mut_slice',
-                  'as std::ops::Index<I>>::index', 'as std::ops::IndexMut<I>>::index_mut', '::as_ref', '::as_mut', 'std::borrow::Borrow', '::clone', '::as_array_ref', '::iter_mut', '::iter')
+                  'as std::ops::Index<I>>::index', 'as std::ops::IndexMut<I>>::index_mut', '::as_ref', '::as_mut', 'std::borrow::Borrow', '::clone', '::as_array_ref', '::iter_mut', '::iter',
+                  'Option::<&T>::copied', 'Option::<&T>::cloned', 'Option::<&mut T>::copied')
 
 
 def call_op(name):
@@ -196,6 +197,15 @@ class Norm:
             args = [self.n(x) for x in e[2:]]
             op = call_op(n)
             if op in ('Mul', 'Add', 'Sub', 'Div') and len(args) == 2: return self.op(op, args[0], args[1])
+            if op in ('min', 'max') and len(args) == 2:
+                # x.max(lo).min(hi) / x.min(hi).max(lo) with constant lo <= hi is x.clamp(lo, hi)
+                other = 'max' if op == 'min' else 'min'
+                for p_, q_ in ((args[0], args[1]), (args[1], args[0])):
+                    if q_[0] == 'c' and not isinstance(q_[1], bool) and isinstance(q_[1], (int, float)) and p_[0] == 'f' and p_[1] == other and len(p_) == 4:
+                        for x_, c_ in ((p_[2], p_[3]), (p_[3], p_[2])):
+                            if c_[0] == 'c' and isinstance(c_[1], (int, float)) and not isinstance(c_[1], bool):
+                                lo, hi = (c_, q_) if op == 'min' else (q_, c_)
+                                if lo[1] <= hi[1]: return ('f', 'clamp', x_, lo, hi)
             if op is not None: return ('f', op) + tuple(args)
             if ('ops::Index<' in n and n.endswith('::index') or 'ops::IndexMut<' in n and n.endswith('::index_mut')) and len(args) == 2:
                 return ('slice', args[0], args[1])
